@@ -25,6 +25,16 @@ const (
 )
 
 const fnPostNewEvent = "(*github.com/couchbaselabs/rosmar.Collection).postNewEvent"
+const fnPostNewEvent2 = "(*github.com/couchbaselabs/rosmar.Collection)._postNewEvent"
+const fnScheduleExp = "(*github.com/couchbaselabs/rosmar.expiryManager).scheduleExpirationAtOrBefore"
+
+// verifCutEvents: feed delivery and expiry scheduling get empty bodies (they are
+// the subject of C08/C14/C15/C16, not of the harness that cuts them).
+func verifCutEvents() {
+	verifCut(fnPostNewEvent)
+	verifCut(fnPostNewEvent2)
+	verifCut(fnScheduleExp)
+}
 
 type kvCtx struct {
 	env  *verifEnv
@@ -49,8 +59,7 @@ func kvBegin(mask int) *kvCtx {
 	env := verifWorld(mask&pC10 == 0, 2, 2)
 	k := &kvCtx{env: env, mask: mask, c: env.colls[0], coll: 1, key: verifKey("key")}
 	if mask&(pC08|pC14) == 0 {
-		// feed delivery and expiry scheduling are the subject of C08/C14, not of these clauses
-		verifCut(fnPostNewEvent)
+		verifCutEvents()
 	}
 	if mask&pC10 != 0 {
 		nf := 1
